@@ -111,7 +111,8 @@ def gen_op(r, model, mat, want=None):
         if op in ("deleteSession", "deleteAllSessions"):
             return [op, r.choice(RECIPIENTS)]
         if op == "saveIdentity":
-            return [op, r.choice(RECIPIENTS), r.randrange(len(mat.identities))]
+            # (index -1: the account's own identity key, as when a session with one's own number is built)
+            return [op, r.choice(RECIPIENTS), r.randrange(len(mat.identities)) if r.random() < 0.85 else -1]
         if op == "storePreKey":
             free = [i for i, k in enumerate(mat.prekeys) if k.getId() not in model.prekeys]
             if free:
@@ -159,7 +160,7 @@ def apply_model(op, model, mat):
     elif k in ("deleteSession", "deleteAllSessions"):
         model.sessions.pop(op[1], None)
     elif k == "saveIdentity":
-        model.identities[op[1]] = mat.identities[op[2]].getPublicKey().serialize()
+        model.identities[op[1]] = mat.identities[op[2]].getPublicKey().serialize() if op[2] >= 0 else (model.local[1] if model.local else b"<own identity>")
     elif k == "storePreKey":
         rec = mat.prekeys[op[1]]
         model.prekeys[rec.getId()] = (rec.serialize(), False)
@@ -224,7 +225,7 @@ def apply_store(op, store, mat):
     elif k == "deleteAllSessions":
         store.deleteAllSessions(op[1])
     elif k == "saveIdentity":
-        store.saveIdentity(op[1], mat.identities[op[2]])
+        store.saveIdentity(op[1], mat.identities[op[2]] if op[2] >= 0 else store.getIdentityKeyPair().getPublicKey())
     elif k == "storePreKey":
         rec = mat.prekeys[op[1]]
         store.storePreKey(rec.getId(), rec)
@@ -260,7 +261,8 @@ def read_store(store, mat):
         if len(trusted) == 1:
             m.identities[rid] = mat.identities[trusted[0]].getPublicKey().serialize()
         elif len(trusted) == 0:
-            m.identities[rid] = b"<pinned to an unknown key>"
+            own_ = store.getIdentityKeyPair().getPublicKey()
+            m.identities[rid] = own_.serialize() if store.isTrustedIdentity(rid, own_) else b"<pinned to an unknown key>"
     unsent = set(rec.getId() for rec in store.preKeyStore.loadUnsentPendingPreKeys())
     allids = set()
     for rec in store.loadPreKeys():
